@@ -43,7 +43,7 @@ import (
 
 var Driver = core.Driver{ID: "C05", Level: "exploration", Run: run, Replay: replay, SelfTest: selfTest}
 
-var walkers = []string{"resolve", "length", "xref", "pages", "outline", "nametree", "filters"}
+var walkers = []string{"resolve", "length", "xref", "pages", "outline", "nametree", "filters", "decode", "fields", "parents", "objwalk"}
 
 // holdConfigs are the design models that must hold: Termination (liveness)
 // and the safety invariants for every walker at N = 2 (one run: the walker is
@@ -53,7 +53,7 @@ var walkers = []string{"resolve", "length", "xref", "pages", "outline", "nametre
 // exhaustive run with the invariants NoOverflow and WorkBounded).
 func holdConfigs(ctx *core.Ctx) (pipe []string, walk []string) {
 	pipe = []string{"MC_Pipe_close.cfg", "MC_Pipe_close_srcerr.cfg", "MC_Pipe_fwd.cfg"}
-	walk = []string{"MC_Walk_q.cfg", "MC_Walk_small3.cfg", "MC_Walk_depth_outline.cfg", "MC_Walk_depth_nametree.cfg", "MC_Walk_filters_globals_capped.cfg"}
+	walk = []string{"MC_Walk_q.cfg", "MC_Walk_small3.cfg", "MC_Walk_depth_outline.cfg", "MC_Walk_depth_nametree.cfg", "MC_Walk_filters_globals_capped.cfg", "MC_Walk_objwalk_capped.cfg"}
 	return
 }
 
@@ -221,26 +221,118 @@ func genPipeRows(ctx *core.Ctx) ([]PipeCase, error) {
 
 // caseInfo is what the parent remembers about a request.
 type caseInfo struct {
-	req   *Req
 	class string // wiring:<walker> family:<name> pipe:<site> seed:<class> mut:<class>
 	slots []Mutation
 	name  string
 }
 
+// plan holds the cases that are kept in memory (pipe rows, exploration); the
+// wiring cases are produced one by one while the pool runs.
 type plan struct {
 	reqs []*Req
-	info map[string]*caseInfo
+	n    int
+}
+
+func (p *plan) id() string {
+	p.n++
+	return fmt.Sprintf("c%07d", p.n)
 }
 
 func (p *plan) add(r *Req, class, name string, slots []Mutation) {
-	r.ID = fmt.Sprintf("c%06d", len(p.reqs))
+	r.ID = p.id()
+	r.info = &caseInfo{class: class, slots: slots, name: name}
 	p.reqs = append(p.reqs, r)
-	p.info[r.ID] = &caseInfo{req: r, class: class, slots: slots, name: name}
+}
+
+// wiringCases yields the requests of the model's wirings.
+//
+// The guarded call runs on every rendering of every wiring (for the "decode"
+// walker: on one rendering, rotating, of every structure that can play it).
+// The whole public walk runs, quick: on one rendering (picked by index and
+// seed) of every N = 2 wiring; thorough: on every rendering of the N = 2
+// wirings and on one rendering of every N = 3 wiring.  The N = 3 wirings of
+// the two largest walkers are taken in shards of 1/8 that rotate with
+// VERIF_SEED, so that eight runs with consecutive seeds cover everything.
+func wiringCases(ctx *core.Ctx, pl *plan, wirings []*Wiring, count *[3]int) func() *Req {
+	shard := int(ctx.Seed % 8)
+	seed := int(ctx.Seed)
+	i, v, inst := 0, 0, 0
+	var queue []*Req
+	emit := func(w *Wiring, v int, full bool) {
+		r := &Req{ID: pl.id(), Wiring: w, Variant: v, Probe: !full}
+		r.info = &caseInfo{class: "wiring:" + w.Walker, name: w.key() + fmt.Sprintf("/v%d", v)}
+		queue = append(queue, r)
+		count[1]++
+		if full {
+			count[2]++
+		}
+	}
+	_ = v
+	_ = inst
+	return func() *Req {
+		for len(queue) == 0 {
+			if i >= len(wirings) {
+				return nil
+			}
+			w := wirings[i]
+			idx := i
+			i++
+			if w.N == 3 && (w.Walker == "length" || w.Walker == "decode") && idx%8 != shard {
+				continue
+			}
+			count[0]++
+			pickV := (idx + seed) % 4
+			fullOK := w.N <= 2 || ctx.Thorough()
+			switch w.Walker {
+			case "decode":
+				// one file per structure; renderings rotate
+				for j, di := range DecodeInsts {
+					if !di.applies(w) {
+						continue
+					}
+					wi := *w
+					wi.Inst, wi.k = di.Name, ""
+					vv := (idx + j + seed) % 4
+					emit(&wi, vv, fullOK && (w.N <= 2 || (idx/8+j+seed)%4 == 0))
+					if w.N <= 2 && ctx.Thorough() {
+						emit(&wi, (vv+1)%4, false)
+					}
+				}
+			default:
+				insts := []string{""}
+				if w.Walker == "nametree" {
+					insts = append(insts, "num")
+				}
+				for _, in := range insts {
+					wi := w
+					if in != "" {
+						c := *w
+						c.Inst, c.k = in, ""
+						wi = &c
+					}
+					for v := 0; v < 4; v++ {
+						if w.Walker == "length" && v&1 == 0 && hasCompressed(w) {
+							continue // same file as v|1
+						}
+						pv := pickV
+						if w.Walker == "length" && hasCompressed(w) {
+							pv |= 1
+						}
+						full := fullOK && (v == pv || w.N <= 2 && ctx.Thorough())
+						emit(wi, v, full)
+					}
+				}
+			}
+		}
+		r := queue[0]
+		queue = queue[1:]
+		return r
+	}
 }
 
 func run(ctx *core.Ctx) error {
 	ctx.Ev.Rule = "evaluations = calls of the public reading API executed on the real code in worker processes (one logged record may aggregate the Get calls of a file); " +
-		"distinct_nontrivial = distinct (model wiring, rendering) pairs whose file made the guarded call do at least one fetch, plus distinct generated structures, " +
+		"distinct_nontrivial = distinct (model wiring, structure, rendering) triples whose file made the guarded call do at least one fetch, plus distinct generated structures, " +
 		"pipe scenario rows per site, and for the exploration distinct (call, outcome class, mutated slot) triples"
 	ctx.Ev.Assume("TLC; Go's runtime accounting (runtime/metrics heap allocs, getrusage CPU time, runtime.NumGoroutine); the envelope constants are calibrated, not derived")
 	ctx.Ev.Assume("beyond the enumerated wirings (N <= 3, <= 3 slots per object) and the generated chains/ladders, totality over arbitrary bytes is explored by seeded mutation, not decided")
@@ -250,7 +342,7 @@ func run(ctx *core.Ctx) error {
 		return err
 	}
 
-	pl := &plan{info: map[string]*caseInfo{}}
+	pl := &plan{}
 
 	// ---- P-A: wirings of the model ----
 	type gen struct {
@@ -293,42 +385,13 @@ func run(ctx *core.Ctx) error {
 		w.key()
 	}
 	sort.Slice(wirings, func(i, j int) bool { return wirings[i].k < wirings[j].k })
-	// thorough: the N=3 object-layer wirings are sharded by seed (1/8 per run), everything else is complete
-	shard := int(ctx.Seed % 8)
-	nW := 0
-	for i, w := range wirings {
-		if w.Walker == "length" && w.N == 3 && i%8 != shard {
-			continue
-		}
-		nW++
-		for v := 0; v < 4; v++ {
-			if w.Walker == "length" && v&1 == 0 && hasCompressed(w) {
-				continue // same file as v|1
-			}
-			// The guarded call runs on every rendering of every wiring.  The whole
-			// public walk: quick - one rendering (picked by index and seed) of every
-			// N = 2 wiring; thorough - every rendering of the N = 2 wirings and one
-			// rendering of every 16th N = 3 wiring.
-			pickV := (i + int(ctx.Seed)) % 4
-			if w.Walker == "length" && hasCompressed(w) {
-				pickV |= 1
-			}
-			full := v == pickV && w.N <= 2
-			if ctx.Thorough() {
-				full = w.N <= 2 || v == pickV && (i/4+int(ctx.Seed))%16 == 0
-			}
-			pl.add(&Req{Wiring: w, Variant: v, Probe: !full}, "wiring:"+w.Walker, w.key()+fmt.Sprintf("/v%d", v), nil)
-		}
-	}
-	ctx.Logf("model wirings: %d terminal states generated by TLC, %d taken, %d files", len(wirings), nW, len(pl.reqs))
-	nWiringReqs := len(pl.reqs)
+	ctx.Logf("model wirings: %d terminal states generated by TLC", len(wirings))
 
 	// ---- P-A: Pipe rows ----
 	rows, err := genPipeRows(ctx)
 	if err != nil {
 		return err
 	}
-	nPipe := 0
 	for _, row := range rows {
 		row := row
 		// type1: the consumer is inside the library; rows it can realise
@@ -341,7 +404,6 @@ func run(ctx *core.Ctx) error {
 				pc := row
 				pc.Site, pc.Damage = "type1", d
 				pl.add(&Req{Pipe: &pc}, "pipe:type1", pc.key(), nil)
-				nPipe++
 			}
 		}
 		// dct: the harness is the consumer; it closes
@@ -354,40 +416,58 @@ func run(ctx *core.Ctx) error {
 				pc := row
 				pc.Site, pc.Chain = "dct", ch
 				pl.add(&Req{Pipe: &pc}, "pipe:dct", pc.key(), nil)
-				nPipe++
 			}
 		}
 	}
+	nPipe := len(pl.reqs)
 	ctx.Logf("pipe scenarios: %d rows from Gen_Pipe, %d cases", len(rows), nPipe)
 
 	// ---- exploration ----
 	if err := addExploration(ctx, pl); err != nil {
 		return err
 	}
-	ctx.Logf("cases: %d in total (%d wiring files, %d pipe, %d exploration)", len(pl.reqs), nWiringReqs, nPipe, len(pl.reqs)-nWiringReqs-nPipe)
+	ctx.Logf("cases kept in memory: %d pipe, %d exploration; the wiring files are made while the workers run", nPipe, len(pl.reqs)-nPipe)
 
 	// development aid: C05_ONLY=pipe,family:chain runs only the cases whose class has one of the prefixes
-	if only := os.Getenv("C05_ONLY"); only != "" {
-		var keep []*Req
-		for _, r := range pl.reqs {
-			for _, p := range strings.Split(only, ",") {
-				if strings.HasPrefix(pl.info[r.ID].class, p) {
-					keep = append(keep, r)
-					break
-				}
+	only := strings.Split(os.Getenv("C05_ONLY"), ",")
+	if os.Getenv("C05_ONLY") == "" {
+		only = nil
+	} else {
+		ctx.Logf("C05_ONLY=%s (evidence of this run is partial)", os.Getenv("C05_ONLY"))
+	}
+	wanted := func(r *Req) bool {
+		if only == nil {
+			return true
+		}
+		for _, p := range only {
+			if strings.HasPrefix(r.info.class, p) {
+				return true
 			}
 		}
-		pl.reqs = keep
-		ctx.Logf("C05_ONLY=%s: %d cases kept (evidence of this run is partial)", only, len(keep))
+		return false
 	}
 
-	// ---- execute ----
+	// ---- execute, judging the records while the workers run ----
 	pool, err := newPool()
 	if err != nil {
 		return err
 	}
-	results := map[string]*Result{}
-	var recs []Rec
+	col := newCollector(ctx, pool)
+	var counts [3]int
+	wnext := wiringCases(ctx, pl, wirings, &counts)
+	rest := iterReqs(pl.reqs)
+	next := func() *Req {
+		for {
+			// the slow exploration cases first, so that they do not end up alone at the tail
+			r := rest()
+			if r == nil {
+				r = wnext()
+			}
+			if r == nil || wanted(r) {
+				return r
+			}
+		}
+	}
 	t0 := time.Now()
 	// circuit breaker: once a class of cases has killed or hung a worker six
 	// times the verdict on it is settled; its remaining cases are left out
@@ -395,17 +475,16 @@ func run(ctx *core.Ctx) error {
 	const tripAfter = 6
 	deaths := map[string]int{}
 	skippedByClass := map[string]int{}
-	err = pool.Run(pl.reqs, parallelism(), func(r *Result) {
-		results[r.Req.ID] = r
-		recs = append(recs, r.Recs...)
+	err = pool.Run(next, parallelism(), func(r *Result) {
+		col.add(r)
 		for _, rec := range r.Recs {
 			if rec.Outcome == "hang" || rec.Outcome == "fatal" {
-				deaths[pl.info[r.Req.ID].class]++
+				deaths[r.Req.info.class]++
 				break
 			}
 		}
 	}, func(r *Req) bool {
-		cls := pl.info[r.ID].class
+		cls := r.info.class
 		if deaths[cls] >= tripAfter {
 			skippedByClass[cls]++
 			return true
@@ -419,14 +498,10 @@ func run(ctx *core.Ctx) error {
 		ctx.Ev.Set("cases_left_out_after_repeated_worker_deaths", skippedByClass)
 		ctx.Logf("left out after %d worker deaths of the same class: %v", tripAfter, skippedByClass)
 	}
-	ctx.Logf("executed %d cases on the real code: %d call records, %d worker starts, %.1fs", len(results), len(recs), pool.restarts, time.Since(t0).Seconds())
-	for id, r := range results {
-		if r.Err != "" {
-			return core.Infra("case %s (%s) could not be built: %s", id, pl.info[id].name, r.Err)
-		}
-	}
-
-	return conclude(ctx, pl, pool, results, recs)
+	ctx.Ev.Set("wirings", map[string]int{"terminal_states_from_tlc": len(wirings), "taken_this_run": counts[0], "files": counts[1], "files_with_whole_public_walk": counts[2]})
+	ctx.Logf("executed %d cases on the real code (%d wirings taken, %d wiring files, %d of them with the whole public walk): %d call records, %d worker starts, %.1fs",
+		col.cases, counts[0], counts[1], counts[2], col.nrecs, pool.restarts, time.Since(t0).Seconds())
+	return col.finish()
 }
 
 func hasCompressed(w *Wiring) bool {
@@ -444,6 +519,30 @@ func addExploration(ctx *core.Ctx, pl *plan) error {
 	sizes := []int{1, 2, 3, 30, 300}
 	if ctx.Thorough() {
 		sizes = append(sizes, 1000, 20000)
+	}
+	// large wirings of the model's walkers (every structure that plays "decode")
+	for _, name := range WiringFamilies() {
+		lsizes := []int{8, 40}
+		if !strings.Contains(name, ":ladder") {
+			lsizes = []int{300}
+			if ctx.Thorough() {
+				lsizes = append(lsizes, 20000)
+				if strings.Contains(name, "objwalk") || strings.Contains(name, "fields") || strings.Contains(name, "parents") {
+					lsizes = append(lsizes, 100000)
+				}
+			}
+		}
+		for _, n := range lsizes {
+			for _, alt := range []bool{false, true} {
+				for _, xs := range []bool{false, true} {
+					if (xs || alt) && n > 300 {
+						continue
+					}
+					f := &Family{Name: name, Size: n, Cyc: alt, XS: xs}
+					pl.add(&Req{Family: f}, "family:"+name, f.key(), nil)
+				}
+			}
+		}
 	}
 	for _, name := range FamilyNames {
 		for _, n := range sizes {
@@ -557,7 +656,7 @@ func replay(ctx *core.Ctx, raw json.RawMessage) error {
 		return err
 	}
 	pool.confirming = true
-	pool.Watchdog = 45 * time.Second
+	pool.Watchdog = pool.Watchdog * 3 / 2
 	w, res := pool.runCase(nil, rc.req())
 	w.kill()
 	if res.Infra != nil {
